@@ -243,60 +243,79 @@ def _macro_args(src, open_paren):
 
 
 def transfer():
-    """hydration_context/src/ssr.rs: every `write!` whose format string prints an argument with
-    `{:?}` (the places where a Rust string becomes a JavaScript string literal), and for each the
-    `.replace(char, "…")` calls applied to that argument beforehand in the same function."""
+    """hydration_context/src/ssr.rs after the repair of F-C12-1/2/3: strings become JavaScript string
+    literals only through the private helper `js_string`.  Extracted: (1) the helper's two rewrites of
+    the `{:?}`-formatted text, (2) every `write!` that prints a `js_string(..)` argument, (3) the
+    number of `{:?}`-style holes anywhere else in the file (must be 0: EVERY debug-printed argument
+    goes through the helper) and of `.replace(` calls (must be 0: nothing is rewritten before
+    formatting)."""
     rel = "hydration_context/src/ssr.rs"
     src = strip_rust_comments(read_repo(rel))
+    helper = section(src, r"\bfn\s+js_string\s*\(\s*\w+\s*:\s*&str\s*\)\s*->\s*String\s*\{", "fn js_string")
+    mfmt = re.findall(r"format!\s*\(\s*\"((?:[^\"\\]|\\.)*)\"", helper)
+    if mfmt != ["{s:?}"]:
+        raise ExtractError("js_string: expected exactly one `format!(\"{s:?}\")`, found %r" % mfmt)
+    m_lt = re.search(r"'(.)'\s*=>\s*\w+\s*\.\s*push_str\s*\(\s*\"((?:[^\"\\]|\\.)*)\"\s*\)", helper)
+    m_bs = re.search(r"'\\\\'\s*=>\s*match\s+\w+\s*\.\s*next\s*\(\s*\)\s*\{", helper)
+    if not m_lt or not m_bs:
+        raise ExtractError("js_string: the `'<' => push_str(..)` arm or the `'\\\\' => match chars.next()` arm is missing")
+    inner = section(helper[m_bs.start():], r"match\s+\w+\s*\.\s*next\s*\(\s*\)\s*\{", "js_string: match chars.next()")
+    arms = re.findall(r"Some\s*\(\s*'((?:[^'\\]|\\.))'\s*\)\s*=>\s*\w+\s*\.\s*push_str\s*\(\s*\"((?:[^\"\\]|\\.)*)\"\s*\)", inner)
+    copy_arm = re.search(r"Some\s*\(\s*(\w+)\s*\)\s*=>\s*\{\s*(\w+)\s*\.\s*push\s*\(\s*'\\\\'\s*\)\s*;\s*\2\s*\.\s*push\s*\(\s*\1\s*\)\s*;?\s*\}", inner)
+    none_arm = re.search(r"None\s*=>\s*\w+\s*\.\s*push\s*\(\s*'\\\\'\s*\)", inner)
+    plain_arm = re.search(r"\b(\w+)\s*=>\s*\w+\s*\.\s*push\s*\(\s*\1\s*\)", helper[m_bs.start() + len(inner):])
+    if len(arms) != 1 or not copy_arm or not none_arm or not plain_arm:
+        raise ExtractError("js_string: unexpected arms after a backslash (%r) / missing copy, None or default arm" % (arms,))
+    if len(re.findall(r"=>", helper)) != 6:
+        raise ExtractError("js_string: expected exactly 6 match arms, the helper changed")
+    lt_char, lt_text = _rust_str_unescape(m_lt.group(1)), _rust_str_unescape(m_lt.group(2))
+    esc_char, esc_text = _rust_str_unescape(arms[0][0]), _rust_str_unescape(arms[0][1])
+
+    rest = src.replace(helper, "")
+    stray_debug = len(re.findall(r"\{\w*:[^{}]*\?\}", rest))
+    replaces = len(re.findall(r"\.\s*replace\s*\(", src))
     sites = []
-    attributed_replaces = 0
-    for m in re.finditer(r"\bwrite!\s*\(", src):
-        args, _ = _macro_args(src, m.end() - 1)
+    for m in re.finditer(r"\bwrite!\s*\(", rest):
+        args, _ = _macro_args(rest, m.end() - 1)
         if len(args) < 2 or not (args[1].startswith('"') and args[1].endswith('"')):
             raise ExtractError("write!: second argument is not a string literal: %r" % args[:2])
         fmt = _rust_str_unescape(args[1][1:-1])
         holes = re.findall(r"\{[^{}]*\}", fmt)
-        if any(h not in ("{}", "{:?}") for h in holes):
-            raise ExtractError("write!: unexpected placeholder in %r" % fmt)
-        if "{:?}" not in holes:
+        if len(holes) != len(args) - 2:
+            raise ExtractError("write!: %r does not have one argument per hole" % fmt)
+        lit_holes = [i for i, a in enumerate(args[2:]) if re.match(r"js_string\s*\(", a)]
+        if any("js_string" in a for i, a in enumerate(args[2:]) if i not in lit_holes):
+            raise ExtractError("write!(%r): js_string used inside a larger expression" % fmt)
+        if not lit_holes:
             continue
-        if holes.count("{:?}") != 1 or len(holes) != len(args) - 2:
-            raise ExtractError("write!: %r does not have exactly one {:?} / one argument per hole" % fmt)
-        dbg_arg = re.sub(r"\s+", "", args[2 + holes.index("{:?}")])
-        fns = list(re.finditer(r"\bfn\s+(\w+)", src[:m.start()]))
+        if len(lit_holes) != 1 or holes[lit_holes[0]] != "{}":
+            raise ExtractError("write!(%r): the js_string argument must fill exactly one `{}` hole" % fmt)
+        fns = list(re.finditer(r"\bfn\s+(\w+)", rest[:m.start()]))
         if not fns:
             raise ExtractError("write!(%r): no enclosing fn" % fmt)
-        fn_name, fn_start = fns[-1].group(1), fns[-1].start()
-        repl = []
-        if re.fullmatch(r"\w+", dbg_arg):
-            scope = src[fn_start:m.start()]
-            lets = list(re.finditer(
-                r"\blet\s+" + re.escape(dbg_arg) + r"\s*=\s*(\w+)((?:\s*\.\s*replace\s*\(\s*'(?:[^'\\]|\\.)'\s*,\s*\"(?:[^\"\\]|\\.)*\"\s*\))+)\s*;",
-                scope))
-            if lets:
-                for r in re.finditer(r"\.\s*replace\s*\(\s*'((?:[^'\\]|\\.))'\s*,\s*\"((?:[^\"\\]|\\.)*)\"\s*\)", lets[-1].group(2)):
-                    ch = _rust_str_unescape(r.group(1))
-                    repl.append((ch, _rust_str_unescape(r.group(2))))
-                    attributed_replaces += 1
-        sites.append((fn_name, fmt, dbg_arg, repl))
-    total_replaces = len(re.findall(r"\.\s*replace\s*\(", src))
-    if total_replaces != attributed_replaces:
-        raise ExtractError("%d `.replace(` calls in %s but only %d are applied to a {:?} argument in the recognised form"
-                           % (total_replaces, rel, attributed_replaces))
-    if not sites:
-        raise ExtractError("no write!(.., \"..{:?}..\", ..) found in %s" % rel)
+        sites.append((fns[-1].group(1), fmt, lit_holes[0], re.sub(r"\s+", "", args[2 + lit_holes[0]])))
+    uses = len(re.findall(r"(?<!fn )\bjs_string\s*\(", rest))
+    if uses != len(sites):
+        raise ExtractError("%d uses of js_string but %d recognised write! sites" % (uses, len(sites)))
     out = []
     out.append("/-! GENERATED by /verif/extract.py Transfer from %s — do not edit.\n\n" % rel)
-    out.append("Every `write!` that prints an argument with `{:?}` (a Rust string becoming a JavaScript string\n"
-               "literal), in source order: (enclosing fn, format string, replacements `(char, text)` applied with\n"
-               "`.replace` to that argument before printing).  All strings are lists of code points. -/\n")
+    out.append("`literalSites`: every `write!` that prints a `js_string(..)` argument, in source order: (enclosing fn,\n"
+               "format string, index of the hole it fills).  `ltRewrite` / `escRewrite`: the two rewrites `js_string`\n"
+               "applies to the `{:?}`-formatted text (a raw character; the character after a backslash).\n"
+               "`strayDebugHoles`: `{:?}`-style holes outside the helper; `replaceCalls`: `.replace(` calls in the file.\n"
+               "All strings are lists of code points. -/\n")
     out.append("namespace Leptos.Gen.Transfer\n\n")
     items = []
-    for fn_name, fmt, dbg_arg, repl in sites:
-        items.append("-- fn %s: write!(.., %s, .., %s)\n    (%s, %s, [%s])" % (
-            fn_name, json_like(fmt), dbg_arg, _nat_list(fn_name), _nat_list(fmt),
-            ", ".join("(%d, %s)" % (ord(c), _nat_list(t)) for c, t in repl)))
-    out.append("def debugSites : List (List Nat × List Nat × List (Nat × List Nat)) := %s\n\n" % lean_list(items))
+    for fn_name, fmt, idx, arg in sites:
+        items.append("-- fn %s: write!(.., %s, .., %s)\n    (%s, %s, %d)" % (
+            fn_name, json_like(fmt), arg, _nat_list(fn_name), _nat_list(fmt), idx))
+    out.append("def literalSites : List (List Nat × List Nat × Nat) := %s\n\n" % lean_list(items))
+    out.append("/-- `'%s' => push_str(%s)` -/\ndef ltRewrite : Nat × List Nat := (%d, %s)\n\n" % (
+        lt_char, json_like(lt_text), ord(lt_char), _nat_list(lt_text)))
+    out.append("/-- after a backslash: `Some('%s') => push_str(%s)`, any other character is copied with its backslash -/\n"
+               "def escRewrite : Nat × List Nat := (%d, %s)\n\n" % (
+        esc_char, json_like(esc_text), ord(esc_char), _nat_list(esc_text)))
+    out.append("def strayDebugHoles : Nat := %d\n\ndef replaceCalls : Nat := %d\n\n" % (stray_debug, replaces))
     out.append("end Leptos.Gen.Transfer\n")
     return "".join(out)
 
